@@ -73,6 +73,13 @@ func (ch *dagChannel) load(c channel) error {
 
 func (ch *dagChannel) reportValues(ins map[string]any) error {
 	if ch.Skipped {
+		// nobody is going to read what is sent to a skipped node: the stream copies made for it are given up here,
+		// otherwise their source is never closed
+		for _, v := range ins {
+			if sr, ok := v.(streamReader); ok {
+				sr.close()
+			}
+		}
 		return nil
 	}
 
